@@ -330,8 +330,7 @@ def run(tier):
     recs = list(enumerate(t.records))
     _G.update(b=b, pool=sl.Pool(v.seed), cfgs=sl.stream_cfgs("full"), seed=v.seed, variants=2 if tier == "quick" else 3)
     chunks = [(i, c) for i, c in enumerate(common.chunks(recs, 400))]
-    with multiprocessing.get_context("fork").Pool(common.NCPU) as p:
-        results = p.map(work, chunks, chunksize=1)
+    results = common.pool_map(work, chunks)
     traces, owners = [], []
     for r in results:
         v.count(r["evals"])
